@@ -503,6 +503,7 @@ type FuncContract struct {
 	Pkg      string
 	Props    []string
 	Requires []*Clause
+	Assumes  []*Clause
 	Ensures  []*Clause
 	Assigns  []string // raw location specs; nil => unspecified (anything)
 	HasAssigns bool
@@ -581,7 +582,7 @@ type Congruence struct {
 	File                     string
 }
 
-var clauseKeywords = []string{"congruence", "spec", "func", "extern", "requires", "ensures", "assigns", "loop", "lemma",
+var clauseKeywords = []string{"assume", "congruence", "spec", "func", "extern", "requires", "ensures", "assigns", "loop", "lemma",
 	"use", "props", "inline", "trusted", "pure", "functional", "nosafety", "globalinv", "datainv", "reveal", "hint", "opt"}
 
 func startsClause(s string) (string, bool) {
@@ -761,6 +762,12 @@ func (c *Contracts) ParseContractText(text, file, pkgPath string) error {
 						cur.Assigns = append(cur.Assigns, strings.TrimSpace(a))
 					}
 				}
+			case "assume":
+				e, err := parseExpr(rest)
+				if err != nil {
+					return errf("%v", err)
+				}
+				cur.Assumes = append(cur.Assumes, &Clause{Kind: "assume", Src: rest, E: e, Line: rc.line, File: file})
 			case "requires", "ensures":
 				label, props, body := splitLabel(rest)
 				e, err := parseExpr(body)
